@@ -42,6 +42,12 @@ class Counter:
             raise ValueError("positive")
         return "fine"
 
+    @expose
+    def last_error(self, k):
+        """a call that SUCCEEDS and whose result happens to be an exception object (an accessor for the last failure, say)"""
+        self.calls += 1
+        return ValueError("kept", k)
+
     def unexposed(self, k):
         self.calls += 1
         self.value = -1
@@ -53,8 +59,14 @@ class Counter:
         return "never"
 
 
-MEMBERS = ["add", "put", "get", "fail_if", "unexposed", "_private", "nosuch"]
-ALL_NAMES = {"add", "put", "get", "fail_if", "unexposed", "_private", "nosuch"}
+MEMBERS = ["add", "put", "get", "fail_if", "last_error", "unexposed", "_private", "nosuch"]
+ALL_NAMES = {"add", "put", "get", "fail_if", "last_error", "unexposed", "_private", "nosuch"}
+
+
+def same_value(a, b):
+    if isinstance(a, BaseException) or isinstance(b, BaseException):
+        return type(a) is type(b) and eq(a.args, b.args)
+    return eq(a, b)
 
 
 def outcome_of(f):
@@ -79,7 +91,7 @@ def h_batch(S, B):
     d1.objectsById["obj"] = o1
     # the proxy has been used before (it knows which members the object exposes) or is fresh (knows nothing yet)
     knows = S.flag("proxy_knows_the_metadata")
-    p1, s1 = rig.make_proxy(d1, "obj", {"add", "put", "get", "fail_if"} if knows else set())
+    p1, s1 = rig.make_proxy(d1, "obj", {"add", "put", "get", "fail_if", "last_error"} if knows else set())
     batch = client.BatchProxy(p1)
     collect_error = None
     try:
@@ -142,7 +154,7 @@ def h_batch(S, B):
             S.check("same-number-of-results", len(batch_results) == len(seq_results))
             if len(batch_results) == len(seq_results):
                 for a, b in zip(batch_results, seq_results):
-                    S.check("same-results-in-order", eq(a, b))
+                    S.check("same-results-in-order", same_value(a, b))
         else:
             S.check("results-of-calls-before-the-failure-are-delivered", len(seq_results) == 0)
     # the batch proxy is empty again: a second submission executes nothing
@@ -160,6 +172,47 @@ def h_batch(S, B):
     S.observe("state", (o1.value, o1.calls))
 
 
+@expose
+@server.behavior(instance_mode="session")
+class SessionCounter(Counter):
+    """registered as a class: every connection gets an instance of its own"""
+
+
+def h_sessions(S, B):
+    """batches of two connections on a class-registered object: each batch runs on its own connection's instance, exactly
+    like the same calls made one by one on that connection"""
+    rig.reset(S)
+    d = rig.make_daemon()
+    d.objectsById["obj"] = SessionCounter
+    names = {"add", "put", "get", "fail_if", "last_error"}
+    pA, sA = rig.make_proxy(d, "obj", names)
+    pB, sB = rig.make_proxy(d, "obj", names)
+    kA = S.int("A.arg", -3, 3)
+    kB = S.int("B.arg", -3, 3)
+    first = S.choice("first_batch_from", ["A", "B"])
+    warm = S.flag("A_made_a_single_call_before")
+    base = 0
+    if warm:
+        base = pA._pyroInvoke("add", (10,), {})
+
+    def run(p, k):
+        b = client.BatchProxy(p)
+        b.add(k)
+        b.get()
+        return list(b())
+    if first == "A":
+        rA = run(pA, kA)
+        rB = run(pB, kB)
+    else:
+        rB = run(pB, kB)
+        rA = run(pA, kA)
+    S.cover("sessions")
+    S.check("batch-of-A-runs-on-A-own-instance", And(eq(rA[0], base + kA), eq(rA[1], base + kA)))
+    S.check("batch-of-B-runs-on-B-own-instance", And(eq(rB[0], kB), eq(rB[1], kB)))
+    S.check("single-call-after-the-batch-sees-the-same-instance", And(eq(pA._pyroInvoke("get", (), {}), base + kA), eq(pB._pyroInvoke("get", (), {}), kB)))
+    S.observe("results", (rA, rB))
+
+
 def _reset():
     from pysym.runner import default_reset
     default_reset()
@@ -172,5 +225,9 @@ SPECS = [
     Spec("batch_vs_sequential", h_batch, {"quick": {"N": 2}, "thorough": {"N": 3}},
          covers=["batch:n=0", "batch:n=2", "check:same-results-in-order", "check:same-failure", "check:same-final-state"],
          native_patch=env.native_env, reset=_reset,
-         desc="0..N batched calls over {add,put,get,fail_if,unexposed,_private,nosuch} with symbolic integer arguments through the real BatchProxy and the daemon's batch branch, normal and oneway, compared with one-by-one calls on a twin (results, failure position and kind, final symbolic state)"),
+         desc="0..N batched calls over {add,put,get,fail_if,last_error (returns an exception object),unexposed,_private,nosuch} with symbolic integer arguments through the real BatchProxy and the daemon's batch branch, normal and oneway, compared with one-by-one calls on a twin (results, failure position and kind, final symbolic state)"),
+    Spec("sessions", h_sessions, {"quick": {}, "thorough": {}},
+         covers=["sessions", "check:batch-of-B-runs-on-B-own-instance"],
+         native_patch=env.native_env, reset=_reset,
+         desc="two connections batch calls (symbolic arguments, either order, with or without an earlier single call) on a class registered with per-session instances: every batch runs on its own connection's instance"),
 ]
